@@ -1,5 +1,6 @@
 /-
-  Thm/C13Judge — soundness of the run-time judge `Spec.judgeC13` (HTTP) with respect to the model.
+  Thm/C13Judge — soundness of the run-time judges `Spec.judgeC13` and `Spec.judgeC13s` (HTTP) with respect
+  to the model.
 
   * `judgeC13_accepts_model`: datagram (`tcb = none`) / first segment of a TCP flow (`tcb = some {}`).
     Hypotheses: the SYN-cookie gate is open (`E2E.Gate ci`) and the date text of the environment contains
@@ -8,31 +9,39 @@
     covered: the judge does not consult the published reference, and HTTP itself is never shadowed.
   * `judgeC13_accepts_model_stream`: "stream" mode of the harness (a request cut into TCP segments after its
     signature `METHOD SP "/"`; each observation = cumulative byte stream so far + reply to the latest
-    segment): accepted for every segment, by C11 (`http_seg_indep_partial`: that reply is the reply of the
-    unsegmented cumulative stream) and the first-segment case.
-  * Sticky observations (`forced = some id`): `judgeC13` does NOT look at `forced`, and is NOT sound there:
+    segment): accepted for every segment UP TO AND INCLUDING THE FIRST ANSWERED ONE, by C11
+    (`http_seg_indep_partial`: that reply is the reply of the unsegmented cumulative stream) and the
+    first-segment case.  Since `http::repl` resets the stored parser state after a reply, the segments after
+    the answered one start the next request and the cumulative stream says nothing about them
+    (`judgeC13_stream_after_answer_false`: the unrestricted statement, true before the repair, is false
+    now); the harness (`judge_lines`, `stream_done`) stops judging a flow in this mode once it was answered.
+  * **`judgeC13s_accepts_model`**: LATER message of a TCP flow already identified as HTTP
+    (`forced = some ID_HTTP`) whose stored parser state is the fresh one — `none`, or `some (.http {})` as
+    after ANY answered request (`C13.http_state_reset`): `Spec.judgeC13s` accepts the model's reply from
+    `protoHandle … ID_HTTP …`: a strict-grammar request gets a well-formed 401 again, a message that does not
+    start with one of the nine methods in any letter case gets no HTTP response
+    (`judgeC13s_accepts_model_repl`: the same through `proto::repl` on a `C13.FreshHttp` block).
+  * Sticky observations (`forced = some id`) and `judgeC13`: `judgeC13` does NOT look at `forced`, and is NOT
+    sound there:
       - `judgeC13_sticky_false_other`: on a flow identified as SSH a later segment that is a complete HTTP
-        request is (correctly) not answered by the SSH responder; the judge fails "complete HTTP request
-        not answered";
+        request is (correctly) not answered by the SSH responder; `judgeC13` fails "complete HTTP request
+        not answered" (`judgeC13s` passes trivially);
       - `judgeC13_sticky_false_http`: on a flow identified as HTTP whose parser is in its initial state,
         "get / HTTP/1.1" (lower-case method) is answered — `http::repl` matches methods case-insensitively,
-        only the dispatcher's signature is upper-case — and the judge fails "HTTP response to an unknown
-        method".  (An HTTP flow never has a fresh parser after its first segment, so this needs a
-        fabricated control block; the harness judges HTTP continuations in "stream" mode instead.)
-    Strongest true variants: `judgeC13_accepts_model_sticky_partial` (id ≠ HTTP: accepted iff the segment
-    is not a request of the strict grammar) and `judgeC13_accepts_model_sticky_http_partial` (id = HTTP,
-    fresh parser state, segment on the dispatcher's domain `METHOD SP "/"…`).
-    Both counterexamples are MOOT for the checking machinery, for two independent reasons:
-      (a) harness (`/verif/harness/props.py`): `judge_lines` builds a `forced` observation only for an op tagged
-          `meta.mode = sticky`, and `gen_appcases` tags ops so only in its `shape == 0` branch, which requires
-          `kind ∈ {stun, ssh, smb1, smb2, ghost}`; property C13 runs `gen_appcases(['http','http','http','raw'])`,
-          so no C13 observation ever carries `forced` — HTTP continuations are judged in "stream" mode;
-      (b) model (`sticky_id_http_iff`, `sticky_first_never_http`): `forced` is the protocol id read from the
-          flow's control block after its first segment; it is HTTP iff that segment starts with
-          `METHOD SP "/"`.  The first segments of the harness's sticky flows start with "SSH-", "Gh0st", or a
-          zero byte (STUN `00 01`, NetBIOS `00`), so `forced = some ID_HTTP` is never read — and a flow whose
-          first segment does start with `METHOD SP "/"` has a parser state past the verb phase, not the
-          fresh one of `judgeC13_sticky_false_http`.
+        only the dispatcher's signature is upper-case — and `judgeC13` fails "HTTP response to an unknown
+        method".  Since the repair of `http::repl` this state is REACHED on every HTTP flow after an answered
+        request (it used to need a fabricated control block); later messages of an answered HTTP flow must
+        therefore be judged with `judgeC13s`, which accepts this observation (same theorem).
+    Strongest true variants for `judgeC13`: `judgeC13_accepts_model_sticky_partial` (id ≠ HTTP: accepted iff
+    the segment is not a request of the strict grammar) and `judgeC13_accepts_model_sticky_http_partial`
+    (id = HTTP, fresh parser state, segment on the dispatcher's domain `METHOD SP "/"…`).
+    The first counterexample is MOOT for the checking machinery: harness (`/verif/harness/props.py`):
+    `judge_lines` builds a `forced` observation only for an op tagged `meta.mode = sticky`, and
+    `gen_appcases` tags ops so only in its `shape == 0` branch, which requires
+    `kind ∈ {stun, ssh, smb1, smb2, ghost}`; model (`sticky_id_http_iff`, `sticky_first_never_http`): `forced`
+    is the protocol id read from the flow's control block after its first segment; it is HTTP iff that
+    segment starts with `METHOD SP "/"`; the first segments of those sticky flows start with "SSH-",
+    "Gh0st", or a zero byte (STUN `00 01`, NetBIOS `00`), so they never carry `forced = some ID_HTTP`.
 -/
 import Masscanned.Proofs.J3.Judge
 import Masscanned.Proofs.J3.Stream
@@ -113,15 +122,19 @@ theorem judgeC13_date_needed (cfg : Cfg) :
 
 /-- **stream mode** (`judge_lines`, meta mode `stream`): a flow whose first segment contains the signature
     `METHOD SP "/"`; `C11.feed` feeds the segments one after the other through `proto::repl`, `rs` are the
-    replies.  For every segment `k` the judge accepts the observation (cumulative stream up to and including
-    segment `k`, reply to segment `k`). -/
+    replies.  For every segment `k` such that no earlier segment was answered (`hprev`: the segments up to and
+    including the first answered one — afterwards the parser starts over with the next request and the
+    harness stops judging the flow in this mode) the judge accepts the observation (cumulative stream up to
+    and including segment `k`, reply to segment `k`).
+    (Restated: before the repair of `http::repl` this held for every `k`; now
+    `judgeC13_stream_after_answer_false`.) -/
 theorem judgeC13_accepts_model_stream (cfg : Cfg) (env : Env) (ci : ClientInfo) (hg : Gate ci) (hd : DateOk env)
     (m : Bytes) (hm : m ∈ httpMethods) (a' : Bytes) (segs : List Bytes) (t : Tcb) (rs : List (Option Bytes))
     (hfeed : C11.feed cfg env ci {} ((m ++ 32 :: 47 :: a') :: segs) = .ok (t, rs))
-    (k : Nat) (hk : k ≤ segs.length) (ci' : ClientInfo) :
+    (k : Nat) (hk : k ≤ segs.length) (hprev : ∀ j, j < k → rs[j]? = some none) (ci' : ClientInfo) :
     ∃ r, rs[k]? = some r ∧
       (judgeC13 (obsOf ci (((m ++ 32 :: 47 :: a') :: segs).take (k + 1)).flatten ci' r)).ok = true := by
-  obtain ⟨R, hun, hrs⟩ := stream_reply cfg env ci m hm a' segs t rs hfeed k hk
+  obtain ⟨R, hun, hrs⟩ := stream_reply cfg env ci m hm a' segs t rs hfeed k hk hprev
   refine ⟨R, hrs, ?_⟩
   unfold C11.unseg at hun
   cases hp : protoRepl cfg env ci (some {}) (((m ++ 32 :: 47 :: a') :: segs).take (k + 1)).flatten with
@@ -135,34 +148,151 @@ theorem judgeC13_accepts_model_stream (cfg : Cfg) (env : Env) (ci : ClientInfo) 
     rw [judgeC13_obs] at this ⊢
     exact this
 
-/-! ### sticky observations: the judge ignores `forced` -/
-
 /-- "GET / HTTP/1.1\r\n\r\n" -/
 def getReq : Bytes := "GET / HTTP/1.1\r\n\r\n".toUTF8.toList
 /-- "get / HTTP/1.1\r\n\r\n" -/
 def getLower : Bytes := "get / HTTP/1.1\r\n\r\n".toUTF8.toList
 
-/-- FALSE ALARM (latent): a complete HTTP request as later segment of an SSH flow -/
+/-- the hypothesis `hprev` of `judgeC13_accepts_model_stream` is needed (since the repair of `http::repl`):
+    the request, answered, then a junk byte in a segment of its own — correctly NOT answered; the cumulative
+    stream `GET / HTTP/1.1 CRLF CRLF x` is a request of the grammar ("then anything"), and the stream-mode
+    observation (cumulative stream, no reply) is rejected: "complete HTTP request not answered" -/
+theorem judgeC13_stream_after_answer_false :
+    (∃ t, C11.feed C18.cfgE C10E2E.envD C10E2E.ciTcp {} [getReq, [120]] =
+      .ok (t, [some (httpReplyBytes C10E2E.envD), none])) ∧
+    (judgeC13 (obsOf C10E2E.ciTcp ([getReq, [120]].take 2).flatten C10E2E.ciTcp none)).ok = false := by
+  refine ⟨?_, by decide +kernel⟩
+  have h : (match C11.feed C18.cfgE C10E2E.envD C10E2E.ciTcp {} [getReq, [120]] with
+    | .ok (_, rs) => decide (rs = [some (httpReplyBytes C10E2E.envD), none])
+    | .error _ => false) = true := by decide +kernel
+  split at h
+  · rename_i t rs heq
+    exact ⟨t, by rw [heq, of_decide_eq_true h]⟩
+  · cases h
+
+/-! ### later messages of an answered HTTP flow: `judgeC13s` -/
+
+theorem judgeC13s_obs (ci : ClientInfo) (p : Bytes) (ci' : ClientInfo) (reply : Option Bytes) (forced : Option Nat) :
+    judgeC13s (obsOf ci p ci' reply forced) =
+      let isHttp : Bool := match reply with | some r => classify r = .http | none => false
+      if forced ≠ some ID_HTTP then pass false
+      else if strictRequest p then
+        match reply with
+        | some r => if reply401Ok r then pass true else failv "401 response malformed (later request of a connection)"
+        | none => failv "complete HTTP request on an answered HTTP connection not answered"
+      else if !nocaseMethodPrefix p then
+        (if isHttp then failv "HTTP response to a message that does not start with a method (later message of an answered connection)"
+         else pass true)
+      else pass false := rfl
+
+/-- the stored parser state of the control block handed to the HTTP handler is the fresh one: no block
+    (datagram), a block without parser state, or — as after ANY answered request — the initial state -/
+def FreshHttpState (tcb : Option Tcb) : Prop :=
+  tcb = none ∨ ∃ t, tcb = some t ∧ (t.protoState = none ∨ t.protoState = some (.http {}))
+
+/-- the HTTP arm on such a block is `http::repl` from the initial parser state -/
+theorem http_arm_fresh_state {cfg : Cfg} {env : Env} {ci ci' : ClientInfo} {tcb tcb' : Option Tcb} {p : Bytes}
+    {o : Option Bytes} (hf : FreshHttpState tcb)
+    (h : protoHandle cfg env ID_HTTP ci tcb p = .ok (ci', tcb', o)) :
+    ∃ s, httpRepl env {} p = .ok (s, o) := by
+  rcases hf with rfl | ⟨t, rfl, ht⟩
+  · obtain ⟨s, hs, _⟩ := http_arm_none h
+    exact ⟨s, hs⟩
+  · have h' : protoHandle cfg env PROTO_HTTP ci (some t) p = .ok (ci', tcb', o) := h
+    rw [C13.protoHandle_http_of_fresh cfg env ci t ht] at h'
+    cases hq : httpRepl env {} p with
+    | error e => rw [hq] at h'; cases h'
+    | ok x =>
+      obtain ⟨s, o'⟩ := x
+      rw [hq] at h'
+      simp only [Except.ok.injEq, Prod.mk.injEq] at h'
+      exact ⟨s, by rw [h'.2.2]⟩
+
+/-- **`judgeC13s` accepts the model**: a later message `p` of a TCP flow identified as HTTP
+    (`forced = some ID_HTTP`) whose stored parser state is the fresh one (`FreshHttpState`: as after any
+    answered request, `C13.http_state_reset`), the reply being the model's (`protoHandle … ID_HTTP …`): a
+    request of the strict grammar is answered with a well-formed 401 again; a message that does not start
+    with one of the nine methods in any letter case is not answered at all. -/
+theorem judgeC13s_accepts_model (cfg : Cfg) (env : Env) (ci : ClientInfo) (p : Bytes) (tcb : Option Tcb)
+    (hf : FreshHttpState tcb) (hd : DateOk env) (ci' : ClientInfo) (tcb' : Option Tcb) (reply : Option Bytes)
+    (h : protoHandle cfg env ID_HTTP ci tcb p = .ok (ci', tcb', reply)) :
+    (judgeC13s (obsOf ci p ci' reply (some ID_HTTP))).ok = true := by
+  obtain ⟨s, hs⟩ := http_arm_fresh_state hf h
+  rw [judgeC13s_obs]
+  dsimp only
+  simp only [ne_eq, not_true_eq_false, if_false]
+  by_cases hst : strictRequest p = true
+  · rw [if_pos hst]
+    obtain ⟨s', hs'⟩ := C13.grammar_request_answered env p hst
+    rw [hs] at hs'
+    simp only [Except.ok.injEq, Prod.mk.injEq] at hs'
+    rw [hs'.2]
+    simp only [C13.http_reply_wf env hd, if_true]
+    rfl
+  · rw [if_neg hst]
+    by_cases hn : nocaseMethodPrefix p = true
+    · simp only [hn, Bool.not_true, Bool.false_eq_true, if_false]
+      rfl
+    · obtain ⟨s2, hs2, _⟩ := C13.httpRepl_fresh_junk env p (fun hh => hn ((C13.nocaseMethodPrefix_iff p).2 hh))
+      rw [hs] at hs2
+      simp only [Except.ok.injEq, Prod.mk.injEq] at hs2
+      rw [hs2.2]
+      simp only [hn, Bool.not_false, if_true, Bool.false_eq_true, if_false]
+      rfl
+
+/-- the same through `proto::repl` with the flow's control block (gate open, block `C13.FreshHttp`: identified
+    as HTTP, parser state fresh — in particular `C13.resetBlock t`, the block stored after any answered
+    request) -/
+theorem judgeC13s_accepts_model_repl (cfg : Cfg) (env : Env) (ci : ClientInfo) (hg : Gate ci) (p : Bytes) (t : Tcb)
+    (hf : C13.FreshHttp t) (hd : DateOk env) (ci' : ClientInfo) (tcb' : Option Tcb) (reply : Option Bytes)
+    (h : protoRepl cfg env ci (some t) p = .ok (ci', tcb', reply)) :
+    (judgeC13s (obsOf ci p ci' reply (some ID_HTTP))).ok = true := by
+  rw [C13.protoRepl_of_identified cfg env ci hg t (by rw [hf.1]; decide), hf.1] at h
+  exact judgeC13s_accepts_model cfg env ci p (some t) (.inr ⟨t, rfl, hf.2⟩) hd ci' tcb' reply h
+
+/-- the date hypothesis is needed here as well -/
+theorem judgeC13s_date_needed (cfg : Cfg) :
+    protoHandle cfg envBadDate ID_HTTP C10E2E.ciTcp none getReq =
+      .ok (C10E2E.ciTcp, none, some (httpReplyBytes envBadDate)) ∧
+    (judgeC13s (obsOf C10E2E.ciTcp getReq C10E2E.ciTcp (some (httpReplyBytes envBadDate)) (some ID_HTTP))).ok = false := by
+  refine ⟨?_, by decide +kernel⟩
+  obtain ⟨s, hs⟩ := C13.grammar_request_answered envBadDate getReq (by decide +kernel)
+  rw [handle_http_none, hs]
+
+/-! ### sticky observations: `judgeC13` ignores `forced` -/
+
+/-- FALSE ALARM of `judgeC13` (latent): a complete HTTP request as later segment of an SSH flow
+    (`judgeC13s` has nothing to say about flows not identified as HTTP and passes trivially) -/
 theorem judgeC13_sticky_false_other (cfg : Cfg) (env : Env) (tcb : Option Tcb) :
     protoHandle cfg env ID_SSH C10E2E.ciTcp tcb getReq = .ok (C10E2E.ciTcp, tcb, none) ∧
-    (judgeC13 (obsOf C10E2E.ciTcp getReq C10E2E.ciTcp none (some ID_SSH))).ok = false := by
-  refine ⟨?_, by decide +kernel⟩
+    (judgeC13 (obsOf C10E2E.ciTcp getReq C10E2E.ciTcp none (some ID_SSH))).ok = false ∧
+    (judgeC13s (obsOf C10E2E.ciTcp getReq C10E2E.ciTcp none (some ID_SSH))).ok = true := by
+  refine ⟨?_, by decide +kernel, by decide +kernel⟩
   rw [handle_ssh, C18.sshRepl_eq]
   have : C18.sshLang getReq = false := by decide +kernel
   rw [this]; rfl
 
-/-- FALSE ALARM (latent, fabricated control block): lower-case method on an HTTP flow with a fresh parser -/
-theorem judgeC13_sticky_false_http (cfg : Cfg) :
+/-- FALSE ALARM of `judgeC13` on a later message: lower-case method on an HTTP flow with a fresh parser state
+    — since the repair of `http::repl` the state of EVERY HTTP flow after an answered request (here: the
+    block `resetBlock` stores; also with no block at all).  The model answers (`http::repl` matches methods
+    case-insensitively; only the dispatcher's signature is upper-case); `judgeC13` rejects "HTTP response to
+    an unknown method"; `judgeC13s`, the judge for such observations, accepts. -/
+theorem judgeC13_sticky_false_http (cfg : Cfg) (t : Tcb) :
     protoHandle cfg C10E2E.envD ID_HTTP C10E2E.ciTcp none getLower =
       .ok (C10E2E.ciTcp, none, some (httpReplyBytes C10E2E.envD)) ∧
+    protoHandle cfg C10E2E.envD ID_HTTP C10E2E.ciTcp (some (C13.resetBlock t)) getLower =
+      .ok (C10E2E.ciTcp, some (C13.resetBlock t), some (httpReplyBytes C10E2E.envD)) ∧
     (judgeC13 (obsOf C10E2E.ciTcp getLower C10E2E.ciTcp (some (httpReplyBytes C10E2E.envD)) (some ID_HTTP))).ok
-      = false := by
-  refine ⟨?_, by decide +kernel⟩
-  have ha : C13.Aux.answeredB getLower = true := by decide +kernel
-  obtain ⟨s, hs⟩ := C13.http_language_exec C10E2E.envD getLower
-  rw [ha] at hs
-  rw [handle_http_none, hs]
-  rfl
+      = false ∧
+    (judgeC13s (obsOf C10E2E.ciTcp getLower C10E2E.ciTcp (some (httpReplyBytes C10E2E.envD)) (some ID_HTTP))).ok
+      = true := by
+  have ha : C13.Aux.Answered getLower := (C13.Aux.answered_iff_B _).2 (by decide +kernel)
+  have hs := C13.httpRepl_fresh_answered C10E2E.envD getLower ha
+  refine ⟨?_, ?_, by decide +kernel, by decide +kernel⟩
+  · rw [handle_http_none, hs]
+  · show protoHandle cfg C10E2E.envD PROTO_HTTP C10E2E.ciTcp (some (C13.resetBlock t)) getLower = _
+    rw [C13.protoHandle_http_of_fresh cfg C10E2E.envD C10E2E.ciTcp _ (.inr rfl), hs]
+    rfl
 
 /-- **which flows get the sticky id HTTP**: after the first segment `p` of a flow (gate open), the control block
     carries `ID_HTTP` iff `p` starts with an upper-case method, SP, "/" -/
@@ -317,12 +447,47 @@ example : ∃ t rs, C11.feed C18.cfgE C10E2E.envD C10E2E.ciTcp {}
     exact ⟨t, rs, heq, by simpa using h, by decide +kernel⟩
   · cases h
 
+/-- `judgeC13s`: hypotheses on concrete terms, and non-trivial verdicts — the block stored after an answered
+    request; `GET / …` answered again (non-trivially accepted), `BREW / …` and a junk byte not answered
+    (non-trivially accepted), through the theorem for every configuration -/
+example : FreshHttpState none ∧ FreshHttpState (some { protoId := ID_HTTP }) ∧
+    FreshHttpState (some (C13.resetBlock { protoId := ID_HTTP, protoState := some (.http { state := .uri }) })) ∧
+    C13.FreshHttp (C13.resetBlock { protoId := ID_HTTP }) :=
+  ⟨.inl rfl, .inr ⟨_, rfl, .inl rfl⟩, .inr ⟨_, rfl, .inr rfl⟩, ⟨rfl, .inr rfl⟩⟩
+example (cfg : Cfg) (t : Tcb) (hf : C13.FreshHttp t) : ∃ ci' tcb' reply,
+    protoRepl cfg C10E2E.envD C10E2E.ciTcp (some t) getReq = .ok (ci', tcb', reply) ∧
+    reply = some (httpReplyBytes C10E2E.envD) ∧
+    (judgeC13s (obsOf C10E2E.ciTcp getReq ci' reply (some ID_HTTP))).ok = true ∧
+    (judgeC13s (obsOf C10E2E.ciTcp getReq ci' reply (some ID_HTTP))).nontrivial = true := by
+  have h := (C13.http_reply_block cfg C10E2E.envD C10E2E.ciTcp (by decide) t hf getReq
+    ((C13.Aux.answered_iff_B _).2 (by decide +kernel))).1
+  exact ⟨_, _, _, h, rfl,
+    judgeC13s_accepts_model_repl cfg C10E2E.envD C10E2E.ciTcp (by decide) getReq t hf (by unfold DateOk; decide +kernel)
+      _ _ _ h, by decide +kernel⟩
+example (cfg : Cfg) (env : Env) (hd : DateOk env) (t : Tcb) (hf : C13.FreshHttp t) : ∃ ci' tcb',
+    protoRepl cfg env C10E2E.ciTcp (some t) "BREW / HTTP/1.1\r\n\r\n".toUTF8.toList = .ok (ci', tcb', none) ∧
+    (judgeC13s (obsOf C10E2E.ciTcp "BREW / HTTP/1.1\r\n\r\n".toUTF8.toList ci' none (some ID_HTTP))).ok = true ∧
+    (judgeC13s (obsOf C10E2E.ciTcp "BREW / HTTP/1.1\r\n\r\n".toUTF8.toList ci' none (some ID_HTTP))).nontrivial = true := by
+  obtain ⟨s, h, _⟩ := C13.http_later_junk_silent_block cfg env C10E2E.ciTcp (by decide) t hf
+    "BREW / HTTP/1.1\r\n\r\n".toUTF8.toList (by decide +kernel)
+  exact ⟨_, _, h, judgeC13s_accepts_model_repl cfg env C10E2E.ciTcp (by decide) _ t hf hd _ _ _ h, by decide +kernel⟩
+/-- the judge does reject what the defect produced: the 401 page in reply to a junk byte or to an unknown
+    method on an answered connection -/
+example : (judgeC13s (obsOf C10E2E.ciTcp [120] C10E2E.ciTcp (some (httpReplyBytes C10E2E.envD)) (some ID_HTTP))).ok = false ∧
+    (judgeC13s (obsOf C10E2E.ciTcp "BREW / HTTP/1.1\r\n\r\n".toUTF8.toList C10E2E.ciTcp
+      (some (httpReplyBytes C10E2E.envD)) (some ID_HTTP))).ok = false ∧
+    (judgeC13s (obsOf C10E2E.ciTcp getReq C10E2E.ciTcp none (some ID_HTTP))).ok = false := by decide +kernel
+
 end Masscanned.C13Judge
 
 #print axioms Masscanned.C13Judge.judgeC13_accepts_model_stream
 #print axioms Masscanned.C13Judge.judgeC13_accepts_model
 #print axioms Masscanned.C13Judge.judgeC13_gate_needed
 #print axioms Masscanned.C13Judge.judgeC13_date_needed
+#print axioms Masscanned.C13Judge.judgeC13_stream_after_answer_false
+#print axioms Masscanned.C13Judge.judgeC13s_accepts_model
+#print axioms Masscanned.C13Judge.judgeC13s_accepts_model_repl
+#print axioms Masscanned.C13Judge.judgeC13s_date_needed
 #print axioms Masscanned.C13Judge.judgeC13_sticky_false_other
 #print axioms Masscanned.C13Judge.judgeC13_sticky_false_http
 #print axioms Masscanned.C13Judge.sticky_id_http_iff
